@@ -52,7 +52,7 @@ func init() {
 			"fault_truncated", "fault_short_read", "eof_with_data", "eof_with_exact_fit", "fault_error_with_data", "fault_error_without_data",
 			"probe_typed_read_ran_past_end", "probe_typed_read_straddles_end", "probe_mirror_runs", "probe_clone", "probe_iotest_runs",
 			"probe_ioerr_runs", "probe_ioerr_read_crossed_failure", "probe_ioerr_constructor_failed", "probe_bitmap_runs", "probe_bitmap_full_buffer",
-			"probe_parallel_runs", "probe_parallel_task_switches", "probe_big_blob", "probe_huge_readbytes", "probe_seek_outside", "probe_stale_size_overrun", "probe_binaryreader_passthrough", "probe_rejected_request", "probe_ioerr_sibling_read", "probe_bitmap_recycled_buffer", "probe_bitmap_large",
+			"probe_parallel_runs", "probe_parallel_task_switches", "probe_big_blob", "probe_huge_readbytes", "probe_seek_outside", "probe_stale_size_overrun", "probe_binaryreader_passthrough", "probe_rejected_request", "probe_ioerr_sibling_read", "probe_byte_order_switched", "probe_bitmap_recycled_buffer", "probe_bitmap_large",
 		},
 		rule: "one run = one seeded history: typed writes through the real BinaryWriter (both byte orders, optional prefix), truncation at a tape-chosen byte, then typed reads / ReadBytes / Read / ReadAt / Seek / Clone on the real BinaryReader over one of 15 constructors (memory, reader with Bytes(), simulated ReadSeeker with and without size, simulated ReaderAt, ReadAll path, streaming reader, real file by handle and by path, mmap by path and by handle, bytes.Reader, strings.Reader, io.SectionReader, os.File through the generic constructor; sometimes the resulting *BinaryReader is handed to the constructor again) with short reads and both EOF styles drawn per Read call; separate families: injected non-EOF failure at byte F, torn source (announced size larger than the data), bitmap writer/reader (incl. recycled buffers and >2^16 bits), and 2-4 parallel ReadAt/Clone callers interleaved at every Seek/Read/ReadAt of the shared source by the seeded scheduler; non-trivial = truncated, or a short read / EOF-with-data / exact-fit EOF fired, or a failure was injected, or a bitmap run with >=1 bit, or a scheduled run with a contended lock or >=3 task switches; distinct = hash of (backend, byte order, operation-kind sequence, whence values, schedule)",
 		realStub: map[string][]string{
